@@ -90,6 +90,10 @@ func TestC18(t *testing.T) {
 						}
 					}
 				}
+			case "p-accept-open": // the plugin accepts a brokered listener and keeps it open until it exits
+				if _, isGRPC := cli.(*vp.GRPCCli); isGRPC {
+					_, serr = cli.Do("grpc-accept-raw", "id", id)
+				}
 			case "p2h": // host accepts, plugin dials
 				switch x := cli.(type) {
 				case *vp.RPCCli:
